@@ -100,7 +100,14 @@ class BuckGophermapHandler(BaseHandler):
                             and ".." not in selector.split("/")
                             and self.vfs.exists(selector)
                         ):
-                            entry.populatefromvfs(self.vfs, selector)
+                            try:
+                                entry.populatefromvfs(self.vfs, selector)
+                            except OSError:
+                                # Gone since exists() looked, or not to be
+                                # read: the line stays what it would be for
+                                # a target that is not there, and the menu
+                                # is not lost over one of its links.
+                                pass
                     self.entries.append(entry)
                 else:  # Info line
                     line = line.strip()
